@@ -42,14 +42,38 @@ func (c *Ctx) refreshFuncs() []*ssa.Function {
 		return nil
 	}
 	out := []*ssa.Function{rf}
-	var add func(f *ssa.Function)
-	add = func(f *ssa.Function) {
+	seen := map[*ssa.Function]bool{rf: true}
+	var add func(f *ssa.Function, d int)
+	add = func(f *ssa.Function, d int) {
 		for _, a := range f.AnonFuncs {
-			out = append(out, a)
-			add(a)
+			if !seen[a] {
+				seen[a] = true
+				out = append(out, a)
+				add(a, d)
+			}
 		}
+		if d >= 3 {
+			return
+		}
+		// unexported package-level helpers of the log package called directly: code extracted out of Refresh
+		eachInstr(f, func(in ssa.Instruction) {
+			ci, ok := in.(ssa.CallInstruction)
+			if !ok {
+				return
+			}
+			h := ci.Common().StaticCallee()
+			if h == nil || seen[h] || h.Pkg != c.LogS || h.Signature.Recv() != nil || h.Parent() != nil || len(h.Blocks) == 0 {
+				return
+			}
+			if h.Object() == nil || h.Object().Exported() {
+				return
+			}
+			seen[h] = true
+			out = append(out, h)
+			add(h, d+1)
+		})
 	}
-	add(rf)
+	add(rf, 0)
 	return out
 }
 
@@ -84,11 +108,7 @@ func checkC02(c *Ctx, r *Report) {
 			if st, ok := in.(*ssa.Store); ok {
 				if fa, ok := st.Addr.(*ssa.FieldAddr); ok {
 					if n, ok := bind[fieldOfAddr(fa)]; ok {
-						top := f
-						for top.Parent() != nil {
-							top = top.Parent()
-						}
-						writers[n] = append(writers[n], top.Name())
+						writers[n] = append(writers[n], c.ownerRoots(f, map[*ssa.Function]bool{})...)
 					}
 				}
 			}
@@ -358,6 +378,52 @@ func checkC02(c *Ctx, r *Report) {
 	// ---- C02.all-tags: every listed tag reaches the duplicate check and the table; the only filters on the way are
 	// predicates of the tag string itself (emptiness, wildcard form)
 	c.checkAllTagsKept(r, fns)
+}
+
+// ownerRoots: the exported entry points on whose behalf f runs — f's top-level function, or, for an unexported helper
+// that is only ever called directly, the owners of all its callers.
+func (c *Ctx) ownerRoots(f *ssa.Function, seen map[*ssa.Function]bool) []string {
+	for f.Parent() != nil {
+		f = f.Parent()
+	}
+	if seen[f] {
+		return nil
+	}
+	seen[f] = true
+	if f.Object() == nil || f.Object().Exported() || f.Signature.Recv() != nil {
+		return []string{f.Name()}
+	}
+	sites := c.callSitesOf(f)
+	if len(sites) == 0 {
+		return []string{f.Name()}
+	}
+	// used as a value anywhere? then it can run on anybody's behalf
+	for _, g := range c.Funcs {
+		used := false
+		eachInstr(g, func(in ssa.Instruction) {
+			if ci, ok := in.(ssa.CallInstruction); ok && ci.Common().StaticCallee() == f {
+				for _, a := range ci.Common().Args {
+					if a == ssa.Value(f) {
+						used = true
+					}
+				}
+				return
+			}
+			for _, op := range in.Operands(nil) {
+				if *op == ssa.Value(f) {
+					used = true
+				}
+			}
+		})
+		if used {
+			return []string{f.Name()}
+		}
+	}
+	var out []string
+	for _, cs := range sites {
+		out = append(out, c.ownerRoots(cs.Parent(), seen)...)
+	}
+	return out
 }
 
 // checkAllTagsKept: the append that collects a logger's tags is guarded only by conditions computed from the tag
@@ -797,18 +863,39 @@ func checkC16(c *Ctx, r *Report) {
 						continue
 					}
 					nUse++
-					guarded := false
-					for _, g := range guardsOfInstr(u) {
-						b, ok := g.Cond.(*ssa.BinOp)
-						if !ok || !(isNilConst(b.Y) || isNilConst(b.X)) {
-							continue
+					nonNilUnder := func(gs []Guard) bool {
+						for _, g := range gs {
+							b, ok := g.Cond.(*ssa.BinOp)
+							if !ok || !(isNilConst(b.Y) || isNilConst(b.X)) {
+								continue
+							}
+							tested := b.X
+							if isNilConst(b.X) {
+								tested = b.Y
+							}
+							if (tested == ld || c.sameFieldLoad(tested, ld)) && ((b.Op == token.NEQ) == g.Polarity) {
+								return true
+							}
 						}
-						tested := b.X
-						if isNilConst(b.X) {
-							tested = b.Y
-						}
-						if (tested == ld || c.sameFieldLoad(tested, ld)) && ((b.Op == token.NEQ) == g.Polarity) {
-							guarded = true
+						return false
+					}
+					guarded := nonNilUnder(guardsOfInstr(u))
+					if phi, isPhi := u.(*ssa.Phi); isPhi && !guarded {
+						// `l := binding; if l == nil { l = fallback }`: the binding flows into the φ only over edges
+						// on which it was just tested non-nil
+						guarded = true
+						for i, e := range phi.Edges {
+							if e != ssa.Value(ld) {
+								continue
+							}
+							pred := phi.Block().Preds[i]
+							gs := append([]Guard{}, guardsOf(pred)...)
+							if iff, ok := pred.Instrs[len(pred.Instrs)-1].(*ssa.If); ok && pred.Succs[0] != pred.Succs[1] {
+								gs = append(gs, Guard{If: iff, Cond: iff.Cond, Polarity: pred.Succs[0] == phi.Block()})
+							}
+							if !nonNilUnder(gs) {
+								guarded = false
+							}
 						}
 					}
 					if !guarded {
@@ -1010,52 +1097,77 @@ func (c *Ctx) checkDestroy(r *Report, bind map[*types.Var]string) {
 			reg[n] = globalPath(c.names().HandleMap)
 		}
 	}
+	// the unbinding may live in Destroy itself or in a helper that Destroy calls on every initialised path
+	type scope struct {
+		fn    *ssa.Function
+		entry *ssa.BasicBlock
+		pd    map[*ssa.BasicBlock]map[*ssa.BasicBlock]bool
+	}
+	scopes := []scope{{d, initBlk, pd}}
+	eachInstr(d, func(in ssa.Instruction) {
+		call, isCall := in.(*ssa.Call)
+		if !isCall {
+			return
+		}
+		h := call.Common().StaticCallee()
+		if h == nil || !c.inModule(h) || len(h.Blocks) == 0 || h.Pkg != c.LogS || h.Signature.Recv() != nil {
+			return
+		}
+		if initBlk != nil && (in.Block() == initBlk || pd[initBlk][in.Block()]) {
+			r.SawFunc(h)
+			scopes = append(scopes, scope{h, h.Blocks[0], postDominators(h)})
+		}
+	})
 	for f, name := range bind {
 		key := "C16.unbind:Destroy#" + name
 		found := false
 		var why string
-		eachInstr(d, func(in ssa.Instruction) {
-			st, isSt := in.(*ssa.Store)
-			if !isSt {
-				return
-			}
-			fa, isFa := st.Addr.(*ssa.FieldAddr)
-			if !isFa || fieldOfAddr(fa) != f {
-				return
-			}
-			if !isNilConst(st.Val) {
-				why = "stores a non-nil value"
-				return
-			}
-			ex, isEx := fa.X.(*ssa.Extract)
-			var nx *ssa.Next
-			if isEx {
-				nx, _ = ex.Tuple.(*ssa.Next)
-			}
-			if nx == nil {
-				why = "not inside a range over the registry"
-				return
-			}
-			rg, _ := nx.Iter.(*ssa.Range)
-			if rg == nil || c.accessPath(rg.X, fr) != reg[name] {
-				why = "ranges over something other than " + reg[name]
-				return
-			}
-			for _, g := range guardsOfInstr(st) {
-				if e2, ok := g.Cond.(*ssa.Extract); ok && e2.Tuple == nx {
-					continue
-				}
-				if !g.If.Block().Dominates(nx.Block()) {
-					why = "conditional on " + c.prov(g.Cond, fr).String()
+		for _, sc := range scopes {
+			fr := &Frame{Fn: sc.fn}
+			initBlk, pd := sc.entry, sc.pd
+			eachInstr(sc.fn, func(in ssa.Instruction) {
+				st, isSt := in.(*ssa.Store)
+				if !isSt {
 					return
 				}
-			}
-			if initBlk != nil && !pd[initBlk][nx.Block()] {
-				why = "the loop is skipped on some path"
-				return
-			}
-			found = true
-		})
+				fa, isFa := st.Addr.(*ssa.FieldAddr)
+				if !isFa || fieldOfAddr(fa) != f {
+					return
+				}
+				if !isNilConst(st.Val) {
+					why = "stores a non-nil value"
+					return
+				}
+				ex, isEx := fa.X.(*ssa.Extract)
+				var nx *ssa.Next
+				if isEx {
+					nx, _ = ex.Tuple.(*ssa.Next)
+				}
+				if nx == nil {
+					why = "not inside a range over the registry"
+					return
+				}
+				rg, _ := nx.Iter.(*ssa.Range)
+				if rg == nil || c.accessPath(rg.X, fr) != reg[name] {
+					why = "ranges over something other than " + reg[name]
+					return
+				}
+				for _, g := range guardsOfInstr(st) {
+					if e2, ok := g.Cond.(*ssa.Extract); ok && e2.Tuple == nx {
+						continue
+					}
+					if !g.If.Block().Dominates(nx.Block()) {
+						why = "conditional on " + c.prov(g.Cond, fr).String()
+						return
+					}
+				}
+				if initBlk != nil && nx.Block() != initBlk && !pd[initBlk][nx.Block()] {
+					why = "the loop is skipped on some path"
+					return
+				}
+				found = true
+			})
+		}
 		if found {
 			r.OK(key, "every entry of %s is unbound (nil) on every path of an initialised Destroy", strings.TrimPrefix(reg[name], "global:"))
 		} else {
@@ -1326,15 +1438,22 @@ func lookupTag(tag, key string) (string, bool) {
 }
 
 // mustNonNil: v is non-nil on every path (fresh allocation, or a phi/value whose nil edges are excluded).
-func (c *Ctx) mustNonNil(v ssa.Value) bool {
+func (c *Ctx) mustNonNil(v ssa.Value) bool { return c.mustNonNilD(v, 0) }
+
+func (c *Ctx) mustNonNilD(v ssa.Value, d int) bool {
+	if d > 6 {
+		return false
+	}
 	switch x := v.(type) {
 	case *ssa.MakeInterface:
-		return c.mustNonNil(x.X)
+		return c.mustNonNilD(x.X, d+1)
+	case *ssa.ChangeInterface:
+		return c.mustNonNilD(x.X, d+1)
 	case *ssa.Alloc:
 		return true
 	case *ssa.Phi:
 		for i, e := range x.Edges {
-			if c.mustNonNil(e) {
+			if c.mustNonNilD(e, d+1) {
 				continue
 			}
 			// the edge may carry a value that was nil-tested on the way: `v := f.X; if v == nil { v = fresh }`
@@ -1352,13 +1471,214 @@ func (c *Ctx) mustNonNil(v ssa.Value) bool {
 		return true
 	case *ssa.Const:
 		return x.Value != nil
+	case *ssa.Parameter:
+		// a constructor helper's parameter: non-nil if every caller passes a non-nil value (the function must not
+		// escape as a value, so that all callers are known)
+		f := x.Parent()
+		if f == nil || (f.Object() != nil && f.Object().Exported()) {
+			return false
+		}
+		sites := c.callSitesOf(f)
+		if len(sites) == 0 || c.usedAsValue(f) {
+			return false
+		}
+		idx := -1
+		for i, p := range f.Params {
+			if p == x {
+				idx = i
+			}
+		}
+		for _, cs := range sites {
+			if idx < 0 || idx >= len(cs.Common().Args) || !c.mustNonNilD(cs.Common().Args[idx], d+1) {
+				return false
+			}
+		}
+		return true
 	case *ssa.UnOp:
+		if x.Op != token.MUL {
+			return false
+		}
+		// a captured local (`layout` used inside a function literal): non-nil if it is so at every call of the literal
+		if fv, ok := x.X.(*ssa.FreeVar); ok {
+			fn := fv.Parent()
+			par := fn.Parent()
+			if par == nil {
+				return false
+			}
+			var cell *ssa.Alloc
+			var mk *ssa.MakeClosure
+			eachInstr(par, func(in ssa.Instruction) {
+				if mc, ok := in.(*ssa.MakeClosure); ok && mc.Fn == ssa.Value(fn) {
+					mk = mc
+					for i, b := range mc.Bindings {
+						if fn.FreeVars[i] == fv {
+							cell, _ = b.(*ssa.Alloc)
+						}
+					}
+				}
+			})
+			if cell == nil || mk == nil {
+				return false
+			}
+			var points []ssa.Instruction
+			for _, cs := range c.callSitesOf(fn) {
+				if cs.Parent() == par {
+					points = append(points, cs)
+				}
+			}
+			if len(points) == 0 || c.usedAsValueExceptCalls(mk) {
+				return false
+			}
+			for _, p := range points {
+				if !c.cellNonNilAt(cell, p, d+1) {
+					return false
+				}
+			}
+			return true
+		}
 		// a load of another field/variable: unknown, unless it is nil-tested on the way (handled by phi)
 		return false
 	case *ssa.Call:
-		return false
+		// a constructor helper or function literal of the module: every return yields a non-nil value
+		if x.Call.IsInvoke() {
+			return false
+		}
+		fns, _ := c.resolveFuncValue(x.Call.Value, 0)
+		if sc := x.Call.StaticCallee(); sc != nil {
+			fns = []*ssa.Function{sc}
+		}
+		if len(fns) != 1 || !c.inModule(fns[0]) || len(fns[0].Blocks) == 0 || fns[0].Signature.Results().Len() != 1 {
+			return false
+		}
+		ok := true
+		eachInstr(fns[0], func(in ssa.Instruction) {
+			if ret, isRet := in.(*ssa.Return); isRet && !c.mustNonNilD(ret.Results[0], d+1) {
+				ok = false
+			}
+		})
+		return ok
 	}
 	return false
+}
+
+// usedAsValue: f is referenced other than as the callee of a direct call.
+func (c *Ctx) usedAsValue(f *ssa.Function) bool {
+	used := false
+	for _, g := range c.Funcs {
+		eachInstr(g, func(in ssa.Instruction) {
+			if ci, ok := in.(ssa.CallInstruction); ok {
+				for _, a := range ci.Common().Args {
+					if a == ssa.Value(f) {
+						used = true
+					}
+				}
+				if ci.Common().StaticCallee() == f {
+					return
+				}
+			}
+			for _, op := range in.Operands(nil) {
+				if *op == ssa.Value(f) {
+					if ci, ok := in.(ssa.CallInstruction); ok && ci.Common().Value == ssa.Value(f) {
+						continue
+					}
+					used = true
+				}
+			}
+		})
+	}
+	return used
+}
+
+// usedAsValueExceptCalls: the closure value is stored, passed or returned (not only called).
+func (c *Ctx) usedAsValueExceptCalls(mk *ssa.MakeClosure) bool {
+	refs := mk.Referrers()
+	if refs == nil {
+		return false
+	}
+	for _, u := range *refs {
+		switch x := u.(type) {
+		case *ssa.DebugRef:
+		case ssa.CallInstruction:
+			if x.Common().Value != ssa.Value(mk) {
+				return true
+			}
+			for _, a := range x.Common().Args {
+				if a == ssa.Value(mk) {
+					return true
+				}
+			}
+		default:
+			return true
+		}
+	}
+	return false
+}
+
+// cellNonNilAt: at instruction p, the local variable held in cell cannot be nil: walking forward from every store of
+// a possibly-nil value, every way to p passes a store of a non-nil value or the non-nil edge of a nil test of the cell.
+func (c *Ctx) cellNonNilAt(cell *ssa.Alloc, p ssa.Instruction, d int) bool {
+	sts := storesTo(cell)
+	if len(sts) == 0 {
+		return false
+	}
+	isCellLoad := func(v ssa.Value) bool {
+		ld, ok := v.(*ssa.UnOp)
+		return ok && ld.Op == token.MUL && ld.X == ssa.Value(cell)
+	}
+	for _, st := range sts {
+		if st.Parent() != p.Parent() {
+			return false
+		}
+		if c.mustNonNilD(st.Val, d+1) {
+			continue
+		}
+		// forward walk from just after st
+		type pos struct {
+			b *ssa.BasicBlock
+			i int
+		}
+		seen := map[*ssa.BasicBlock]bool{}
+		var walk func(b *ssa.BasicBlock, from int) bool // true = safe
+		walk = func(b *ssa.BasicBlock, from int) bool {
+			for i := from; i < len(b.Instrs); i++ {
+				in := b.Instrs[i]
+				if in == p {
+					return false
+				}
+				if s2, ok := in.(*ssa.Store); ok && s2.Addr == ssa.Value(cell) {
+					return true // overwritten: that store is judged on its own
+				}
+			}
+			last := b.Instrs[len(b.Instrs)-1]
+			if iff, ok := last.(*ssa.If); ok {
+				if bo, ok := iff.Cond.(*ssa.BinOp); ok && isNilConst(bo.Y) && isCellLoad(bo.X) && (bo.Op == token.EQL || bo.Op == token.NEQ) {
+					nilSucc := b.Succs[0]
+					if bo.Op == token.NEQ {
+						nilSucc = b.Succs[1]
+					}
+					if seen[nilSucc] {
+						return true
+					}
+					seen[nilSucc] = true
+					return walk(nilSucc, 0)
+				}
+			}
+			for _, su := range b.Succs {
+				if seen[su] {
+					continue
+				}
+				seen[su] = true
+				if !walk(su, 0) {
+					return false
+				}
+			}
+			return true
+		}
+		if !walk(st.Block(), instrIndex(st)+1) {
+			return false
+		}
+	}
+	return true
 }
 
 // storedLater: after allocation of the literal, the same function stores a must-non-nil value into al.f unconditionally.
